@@ -144,7 +144,7 @@ class Channel0(object):
         :param specification.Connection.Start frame_in: Amqp frame.
         :return:
         """
-        mechanisms = try_utf8_decode(frame_in.mechanisms)
+        mechanisms = try_utf8_decode(frame_in.mechanisms).split()
         if 'EXTERNAL' in mechanisms:
             mechanism = 'EXTERNAL'
             credentials = '\0\0'
